@@ -13,6 +13,14 @@ from .monitors import StdMonitor, oracle_ll
 from .tinymodels import Guarded, KillSignal, make
 
 
+def clone_kwargs(kw):
+    """Deep copy of sampler keyword arguments; live pools are shared, not copied."""
+    out = {}
+    for k, v in kw.items():
+        out[k] = v if k in ("pool", "checkpoint_callback") else copy.deepcopy(v)
+    return out
+
+
 def scratch(prefix="run"):
     return tempfile.mkdtemp(prefix=f"nessai-verif-{prefix}-")
 
@@ -328,7 +336,7 @@ def run_standard_case(cfg, want=("c01", "c05"), keep_output=False):
                 model = make(cfg.get("model", "G2"))
                 guards.append(Guarded(model))
                 try:
-                    fs = FlowSampler(model, output=out, resume=True, **copy.deepcopy(kw))
+                    fs = FlowSampler(model, output=out, resume=True, **clone_kwargs(kw))
                     fs.run(plot=False, save=True, **cfg.get("run_kwargs", {}))
                     break
                 except KillSignal:
@@ -672,7 +680,7 @@ def run_ins_case(cfg, want=("c03", "c05"), keep_output=False, run_kwargs=None):
                 model = make(cfg.get("model", "G2"))
                 guards.append(Guarded(model))
                 try:
-                    fs = FlowSampler(model, output=out, resume=True, **copy.deepcopy(kw))
+                    fs = FlowSampler(model, output=out, resume=True, **clone_kwargs(kw))
                     if fs.ns.iteration > 0 or fs.ns.finalised:
                         if not kw.get("save_log_q", False):
                             mon.rederived = True
